@@ -47,11 +47,11 @@ libcperciva_asprintf(char ** ret, const char * format, ...)
 		g_asp_kind = 1;
 		g_asp_a1 = va_arg(ap, int);
 		g_asp_a2 = va_arg(ap, int);
-		g_asp_pfx = va_arg(ap, int);
+		g_asp_pfx = va_arg(ap, int) & 0xff;	/* %c prints (unsigned char)arg; also: cbmc passes a char vararg unpromoted */
 	} else if (strcmp(format, "%d %cB") == 0) {
 		g_asp_kind = 2;
 		g_asp_a1 = va_arg(ap, int);
-		g_asp_pfx = va_arg(ap, int);
+		g_asp_pfx = va_arg(ap, int) & 0xff;	/* %c prints (unsigned char)arg; also: cbmc passes a char vararg unpromoted */
 	} else {
 		g_asp_kind = -1;
 		__CPROVER_assert(0, "MODEL asprintf: format string not one of the three used by humansize()");
